@@ -138,7 +138,7 @@ func encBool(b bool) string {
 // --- the documented grammar, as a generator --------------------------------
 
 var c17TypeNames = []string{"int32", "uint32", "int64", "string", "bool", "bytes", "float", "datetime", "duration", "Item", "Reward", ".Item", ".FruitType", "Fruit", "protoconf.Item", "Lv2Bonus", "a_b", "X"}
-var c17Props = []string{"", "", "unique:true", `range:"1,10"`, `refer:"ItemConf.ID"`, "optional:true", `sep:";"`, `json_name:"x_y"`, "form:FORM_JSON", `default:"}"`, `range:"~,5" present:true`, "size:3 fixed:true", `default:"a|{b}"`, "sequence:1"}
+var c17Props = []string{"", "", "unique:true", `range:"1,10"`, `refer:"ItemConf.ID"`, "optional:true", `sep:";"`, `json_name:"x_y"`, "form:FORM_JSON", `default:"}"`, `range:"~,5" present:true`, "size:3 fixed:true", `default:"a|{b}"`, "sequence:1", `range:"10"`, `range:"~"`, `range:"1,2,3"`, `range:""`, `range:","`, `range:"1~10" present:true`}
 
 func c17Suffix(r *rand.Rand) (enc string, text string) {
 	p := c17Props[r.Intn(len(c17Props))]
@@ -364,11 +364,11 @@ func (g *hgen) prop(kind string) string {
 	var cands []string
 	switch kind {
 	case "scalar":
-		cands = []string{`range:"1,10"`, `refer:"ItemConf.ID"`, "optional:true", `default:"1"`, "present:true", `json_name:"jn"`, "unique:true", `range:"~,5" optional:true`}
+		cands = []string{`range:"1,10"`, `refer:"ItemConf.ID"`, "optional:true", `default:"1"`, "present:true", `json_name:"jn"`, "unique:true", `range:"~,5" optional:true`, `range:"10"`, `range:"~"`, `range:"3" present:true`, `range:"1,2,3"`}
 	case "map":
-		cands = []string{"unique:true", "unique:false", "sequence:1", "fixed:true", "size:2", "optional:true", `sep:";"`, `range:"1,~"`, `json_name:"m"`, "present:true", "patch:PATCH_MERGE"}
+		cands = []string{"unique:true", "unique:false", "sequence:1", "fixed:true", "size:2", "optional:true", `sep:";"`, `range:"1,~"`, `json_name:"m"`, "present:true", "patch:PATCH_MERGE", `range:"3"`, `range:"~"`}
 	case "list":
-		cands = []string{"unique:true", "sequence:0", "fixed:true", "size:3", "optional:true", `sep:"|"`, `subsep:":"`, `range:"1,~"`, `refer:"A.B"`, "form:FORM_TEXT", "patch:PATCH_REPLACE", "fixed:false"}
+		cands = []string{"unique:true", "sequence:0", "fixed:true", "size:3", "optional:true", `sep:"|"`, `subsep:":"`, `range:"1,~"`, `refer:"A.B"`, "form:FORM_TEXT", "patch:PATCH_REPLACE", "fixed:false", `range:"3"`, `range:"~"`}
 	default:
 		cands = []string{"form:FORM_JSON", "form:FORM_TEXT", "optional:true", "present:true", `sep:","`, `json_name:"s"`, `range:"1,2"`, "unique:true", "patch:PATCH_MERGE"}
 	}
@@ -468,6 +468,8 @@ func (g *hgen) field(prefix string, depth int, last bool) []hcol {
 					if g.r.Intn(4) == 0 {
 						pfx = "[" + sn + "]<"
 						sub[0].typ = pfx + stripProp(sub[0].typ) + ">" + g.prop("list")
+					} else if g.r.Intn(4) == 0 {
+						sub[0].typ = pfx // the element type alone: no column type, no property
 					} else {
 						sub[0].typ = pfx + stripProp(sub[0].typ) + g.prop("list")
 					}
@@ -528,6 +530,8 @@ func (g *hgen) field(prefix string, depth int, last bool) []hcol {
 		if k == 12 {
 			if g.r.Intn(3) == 0 {
 				sub[0].typ = "[" + sn + "]<" + stripProp(sub[0].typ) + ">" + g.prop("list")
+			} else if g.r.Intn(4) == 0 {
+				sub[0].typ = "[" + sn + "]" // the element type alone
 			} else {
 				sub[0].typ = "[" + sn + "]" + stripProp(sub[0].typ) + g.prop("list")
 			}
